@@ -222,6 +222,9 @@ func ruleR2(p *Prog) []Ob {
 			if o.op == "OPENW" && o.a.kind == "concat" {
 				// O5: deterministic temp name, opened in append mode: remove a stale one first
 				ob := Ob{Rule: "R2", Inst: fmt.Sprintf("O5:%s:stale-temp%s", funcLabel(fn), o.a.suf), Props: []string{"C05"}, Pos: p.at(o.call), Func: funcLabel(fn), Nontrivial: true}
+				if fn.Name() == "Recover" && recvNamed(fn) == p.R.Segment {
+					ob.Props = []string{"C05", "C07"} // what Recover leaves behind is C07's subject too
+				}
 				for _, rn := range ops {
 					if rn.op == "RENAME" && rn.a.kind == "writer.Path" && !p.sameLayoutTemp(fn, rn.a) {
 						ob.Props = append(ob.Props, "C17") // the temp of a migration
